@@ -9,6 +9,10 @@ def run(tier, seed, replay=None):
     for nm in ("DigitalMetadataWriter.write", "DigitalMetadataWriter._write", "DigitalMetadataReader.read", "DigitalMetadataReader.get_bounds",
                "DigitalMetadataReader._add_metadata", "DigitalMetadataReader.read_latest", "DigitalMetadataReader._populate_data"):
         ck.add_function(pyload.source_info(mod, nm))
+    from checks import dmd_common
+    dmd_common.read_wiring(ck, mod)
+    dmd_common.add_metadata_window(ck, mod)
+    ck.replayers["dmd."] = C13.replay_dmd
     ck.replayers["w.place"] = C13.replay_dmd
     ck.replayers["r.place"] = C13.replay_dmd
     ck.discharge()
@@ -16,7 +20,7 @@ def run(tier, seed, replay=None):
     r = replay_py.run_driver("dmd_history.py", {"seed": seed + 1, "channels": nch, "queries": 20, "max_failures": 3}, timeout=3000)
     ck.bounded_runs.append(("bounded.dmd_roundtrip", "%d metadata channels x (writes as single samples / list of dicts / dict of arrays, duplicate write refused) x 20 range queries with None/ffill and a column: keys, order, values vs exact model" % nch,
                             r["cases"], r["failures"]))
-    ck.assumptions += ["the round trip itself (write/_write/read/_add_metadata/_populate_data over h5py) is covered by the bounded differential only - labelled bounded, not proved",
+    ck.assumptions += ["read is verified against the contracts of _get_file_list / _add_metadata / get_bounds, _add_metadata's window filter on one file is verified on stand-ins for h5py/numpy; write/_write/_populate_data/get_bounds over h5py are covered by the bounded differential only - labelled bounded, not proved",
                        "h5py stores and returns scalars, strings, arrays faithfully"]
-    ck.extra["explanation"] = "placement dependency proved (C13); the round trip through h5py is checked by a bounded differential against an exact model"
+    ck.extra["explanation"] = "placement dependency proved (C13); reader orchestration (window, look-back, edge filtering, order) by path-complete symbolic execution of the real read / _add_metadata against callee contracts; the round trip through h5py is checked by a bounded differential against an exact model"
     return ck
